@@ -748,7 +748,7 @@ def kernels(draw):
     env_b = {"n": (NBIG, NBIG)}
     gen.vars.append(Var("n", "int"))
     # passive integer / logical arguments (make the harness ineligible)
-    extra_int = gen.chance(25)
+    extra_int = gen.chance(18)
     intvals = {}
     if extra_int:
         for name in ["k1", "k2"][:gen.pick([1, 2])]:
@@ -757,7 +757,7 @@ def kernels(draw):
             intvals[name] = val
             env_s[name] = (val, val)
             env_b[name] = (val, val)
-    if gen.chance(15):
+    if gen.chance(8):
         gen.vars.append(Var("lg", "log"))
 
     def size(dims, env):
@@ -768,7 +768,7 @@ def kernels(draw):
 
     # active arguments
     nstate = 0
-    nact = gen.pick([2, 3, 2, 4, 1])
+    nact = gen.pick([2, 3, 2, 4, 3, 1])
     names_arr = ["a", "b", "c", "d"]
     names_sca = ["s", "r", "u"]
     for _ in range(nact):
